@@ -274,7 +274,7 @@ def worker(sh):
 
 
 def run(ctx):
-    cfgs = ['prod', 'san', 'p32'] if ctx.quick else ['prod', 'san', 'p64', 'p32', 'p32-san']
+    cfgs = ['prod', 'san', 'p32'] if ctx.quick else ['prod', 'san', 'p64', 'p32', 'p32-san', 'p64-O0', 'gcc-p64']
     exes = session.build_exes({c: (c, 'wkd_drv.cpp', []) for c in cfgs})
     session.run_shards(ctx, worker, 16 if ctx.quick else 24, exes, {'cfgs': cfgs})
     ctx.rule = ('histories of keygen / qualifykey / nondelegable_keygen / nondelegable_qualifykey / adjust_nondelegable / resamplekey executed through the C API with slot arrays of '
